@@ -171,6 +171,8 @@ func (w *pathWorld) step(i int, inTx bool) {
 		w.opInsert(i)
 	case k < 13:
 		w.opGet(i)
+	case k < 16 && inTx && r.IsKnown(sigOrphans):
+		w.opClock(i) // no deletions inside transactions while the orphaned-rows finding is open
 	case k < 14:
 		w.opDelete(i)
 	case k < 16:
@@ -228,7 +230,7 @@ func (w *pathWorld) opInsert(i int) {
 	if err != nil {
 		r.Logf("#%d insert %v type=%v groups=%x", i, v, t, groups)
 		opFailed(r, "Insert", err, dead)
-		w.fullCheck("after failed insert")
+		w.segCheck(v.shape, "after failed insert")
 		return
 	}
 	before := w.cur.segs[id]
@@ -276,7 +278,75 @@ func (w *pathWorld) opInsert(i int) {
 			v, class, st.Inserted, st.Updated, wantIns, wantUpd)
 		return
 	}
-	w.fullCheck("after insert")
+	w.segCheck(v.shape, "after insert")
+}
+
+// segCheck looks the one segment id up and compares version, types and groups with the reference
+// (the complete content is compared after deletions, clean-ups, transactions, faults and at the end).
+func (w *pathWorld) segCheck(sh *shape, when string) {
+	r := w.r
+	if r.Failed() {
+		return
+	}
+	q := &query.Params{SegIDs: [][]byte{sh.id}}
+	res, err := w.rw.Get(context.Background(), q)
+	if err != nil {
+		r.Fail("c27-op-error", "op-error:Get", "Get failed: %v", errText(err))
+		return
+	}
+	defer func(n int) { w.nonEmpty = n }(w.nonEmpty)
+	w.checkResults("c27-state-mismatch", fmt.Sprintf("stored entry of segment s%d %s", sh.idx, when), "path-state", res, q)
+}
+
+const sigOrphans = "path-fk-orphans"
+
+var orphanTables = []string{"SegTypes", "HPGroupIDs", "IntfToSeg"}
+
+// orphans counts rows of the dependent tables whose segment row no longer exists (only possible when
+// the ON DELETE CASCADE clauses of the schema are not in force). -1 inside a transaction.
+func (w *pathWorld) orphans(remove bool) int {
+	if w.cur != w.m {
+		return -1
+	}
+	total := 0
+	for _, tbl := range orphanTables {
+		cond := " FROM " + tbl + " WHERE SegRowID NOT IN (SELECT RowID FROM Segments)"
+		if remove {
+			res, err := w.db.DB().Full.Exec("DELETE" + cond)
+			if err != nil {
+				panic(core.InfraError{Msg: "orphan clean-up: " + err.Error()})
+			}
+			n, _ := res.RowsAffected()
+			total += int(n)
+			continue
+		}
+		var n int
+		if err := w.db.DB().Full.QueryRow("SELECT count(*)" + cond).Scan(&n); err != nil {
+			panic(core.InfraError{Msg: "orphan count: " + err.Error()})
+		}
+		total += n
+	}
+	return total
+}
+
+// attribute gives a content mismatch the signature of the orphaned-rows defect when the database
+// contains orphaned rows (a deleted segment's types / groups / interfaces were left behind and a
+// later segment reusing the row id inherited them).
+func (w *pathWorld) attribute(sig string) string {
+	if w.orphans(false) > 0 {
+		return sigOrphans
+	}
+	return sig
+}
+
+// afterDelete: when the orphaned-rows defect is a listed known finding, the harness removes the
+// orphans itself (and notes the finding) so that the rest of the history stays meaningful.
+func (w *pathWorld) afterDelete() {
+	if w.r.IsKnown(sigOrphans) && w.cur == w.m {
+		if n := w.orphans(true); n > 0 {
+			w.r.NoteKnown(sigOrphans)
+		}
+	}
 }
 
 func resKey(v *ver, t seg.Type) string { return fmt.Sprintf("%v/%s %v", v, v.key, t) }
@@ -316,7 +386,7 @@ func (w *pathWorld) checkResults(check, what, sig string, res query.Results, q *
 	}
 	if d := diffSets(got, must, nil); d != "" {
 		sort.Strings(got)
-		r.Fail(check, sig, "%s: %s\n got  %v\n want %v", what, d, got, sortedStrings(must))
+		r.Fail(check, w.attribute(sig), "%s: %s\n got  %v\n want %v", what, d, got, sortedStrings(must))
 		return false
 	}
 	// hidden-path groups reported with each result: the full set without a group filter; with a
@@ -326,7 +396,7 @@ func (w *pathWorld) checkResults(check, what, sig string, res query.Results, q *
 		have := map[uint64]bool{}
 		for _, g := range x.HPGroupIDs {
 			if !e.groups[g] {
-				r.Fail(check, sig+":groups", "%s: result %s reports group %x it was never stored under (stored: %x)",
+				r.Fail(check, w.attribute(sig+":groups"), "%s: result %s reports group %x it was never stored under (stored: %x)",
 					what, got[k], g, e.sortedGroups())
 				return false
 			}
@@ -340,7 +410,7 @@ func (w *pathWorld) checkResults(check, what, sig string, res query.Results, q *
 				}
 			}
 			if need && !have[g] {
-				r.Fail(check, sig+":groups", "%s: result %s lacks group %x (stored: %x, reported: %x)",
+				r.Fail(check, w.attribute(sig+":groups"), "%s: result %s lacks group %x (stored: %x, reported: %x)",
 					what, got[k], g, e.sortedGroups(), x.HPGroupIDs)
 				return false
 			}
@@ -422,7 +492,7 @@ func (w *pathWorld) fullCheck(when string) {
 	}
 	res, err := w.rw.GetAll(context.Background())
 	if err != nil {
-		r.Fail("c27-op-error", "op-error:GetAll", "GetAll failed: %v", err)
+		r.Fail("c27-op-error", "op-error:GetAll", "GetAll failed: %v", errText(err))
 		return
 	}
 	w.checkResults("c27-state-mismatch", "path store content "+when, "path-state", res, nil)
@@ -525,6 +595,7 @@ func (w *pathWorld) opDelete(i int) {
 		}
 	}
 	r.Covered(fmt.Sprintf("p.delete:len=%d,n=%d", l, min(n, 2)))
+	w.afterDelete()
 	w.fullCheck("after delete")
 }
 
@@ -561,6 +632,7 @@ func (w *pathWorld) opDeleteExpired(i int) {
 			r.Probe("cleanup-partial")
 		}
 	}
+	w.afterDelete()
 	if n != want {
 		r.Fail("c27-cleanup", "path-cleanup-count", "DeleteExpired(%v) removed %d segments, %d stored segments were expired", now.UTC(), n, want)
 		return
@@ -604,7 +676,7 @@ func (w *pathWorld) opNextQuery(i int) {
 	}
 	got, err := w.rw.GetNextQuery(context.Background(), src, dst)
 	if err != nil {
-		r.Fail("c27-op-error", "op-error:GetNextQuery", "GetNextQuery failed: %v", err)
+		r.Fail("c27-op-error", "op-error:GetNextQuery", "GetNextQuery failed: %v", errText(err))
 		return
 	}
 	want, have := w.cur.nq[key]
@@ -635,7 +707,7 @@ func (w *pathWorld) opTx(i int) {
 	defer cancel()
 	tx, err := w.db.BeginTransaction(ctx, nil)
 	if err != nil {
-		r.Fail("c27-op-error", "op-error:BeginTransaction", "BeginTransaction failed: %v", err)
+		r.Fail("c27-op-error", "op-error:BeginTransaction", "BeginTransaction failed: %v", errText(err))
 		return
 	}
 	r.Logf("#%d tx begin", i)
@@ -675,7 +747,7 @@ func (w *pathWorld) opTx(i int) {
 		}
 	case end < 2:
 		if err := tx.Commit(); err != nil {
-			r.Fail("c27-op-error", "op-error:Commit", "Commit failed: %v", err)
+			r.Fail("c27-op-error", "op-error:Commit", "Commit failed: %v", errText(err))
 			return
 		}
 		r.Logf("#%d tx commit", i)
@@ -684,7 +756,7 @@ func (w *pathWorld) opTx(i int) {
 		w.cur = w.m
 	default:
 		if err := tx.Rollback(); err != nil {
-			r.Fail("c27-op-error", "op-error:Rollback", "Rollback failed: %v", err)
+			r.Fail("c27-op-error", "op-error:Rollback", "Rollback failed: %v", errText(err))
 			return
 		}
 		r.Logf("#%d tx rollback", i)
@@ -701,7 +773,7 @@ func (w *pathWorld) checkNextQueries() {
 			src, dst := iaPool[a], iaPool[b]
 			got, err := w.rw.GetNextQuery(context.Background(), src, dst)
 			if err != nil {
-				r.Fail("c27-op-error", "op-error:GetNextQuery", "GetNextQuery failed: %v", err)
+				r.Fail("c27-op-error", "op-error:GetNextQuery", "GetNextQuery failed: %v", errText(err))
 				return
 			}
 			want, have := w.cur.nq[src.String()+">"+dst.String()]
@@ -718,7 +790,7 @@ func (w *pathWorld) opRestart(i int) {
 	r.Fault("db.restart")
 	r.Logf("#%d restart", i)
 	if err := w.db.Close(); err != nil {
-		r.Fail("c27-op-error", "op-error:Close", "Close failed: %v", err)
+		r.Fail("c27-op-error", "op-error:Close", "Close failed: %v", errText(err))
 	}
 	w.open()
 	w.fullCheck("after restart")
